@@ -1819,6 +1819,237 @@ Proof.
   - apply (idem_lookup E p Hwf cb c Hcb Hc (conj Hdr (conj Hdc Hid)) Henv Hnc).
 Qed.
 
+(** ---- C16: classification of the outcomes of opening ---- *)
+
+Lemma mapM_err {A B} (f : A -> res B) l e : mapM f l = Err e -> exists x, In x l /\ f x = Err e.
+Proof.
+  induction l as [|x l IH]; simpl; [discriminate|].
+  destruct (f x) as [y|e'] eqn:Ef; simpl.
+  - destruct (mapM f l) as [ys|e'']; simpl; [discriminate|]. intros H. inversion H; subst.
+    destruct (IH eq_refl) as (x' & Hx' & Hf). eauto.
+  - intros H. inversion H; subst. eauto.
+Qed.
+
+Lemma mapM_ok_in {A B} (f : A -> res B) l ys : mapM f l = Ok ys ->
+  forall y, In y ys -> exists x, In x l /\ f x = Ok y.
+Proof.
+  revert ys. induction l as [|x l IH]; simpl; intros ys H y Hy.
+  - inversion H; subst. destruct Hy.
+  - destruct (f x) as [y0|] eqn:Ef; simpl in H; [|discriminate].
+    destruct (mapM f l) as [ys0|]; simpl in H; [|discriminate]. inversion H; subst.
+    destruct Hy as [<-|Hy]; [eauto|]. destruct (IH ys0 eq_refl y Hy) as (x' & Hx' & Hf). eauto.
+Qed.
+
+Lemma mapM_ok_map {A B} (f : A -> res B) (g : B -> A) l ys :
+  (forall x y, f x = Ok y -> g y = x) -> mapM f l = Ok ys -> map g ys = l.
+Proof.
+  intros Hg. revert ys. induction l as [|x l IH]; simpl; intros ys H.
+  - inversion H; auto.
+  - destruct (f x) as [y0|] eqn:Ef; simpl in H; [|discriminate].
+    destruct (mapM f l) as [ys0|]; simpl in H; [|discriminate]. inversion H; subst. simpl.
+    rewrite (Hg _ _ Ef), (IH ys0); auto.
+Qed.
+
+Lemma valid_rels_err src present rs e : valid_rels src present rs = Err e ->
+  e = KeyErr /\ exists r, In r rs /\ r_mode r = MOther /\
+                          present (resolve (baseURI src) (r_target r)) = false.
+Proof.
+  induction rs as [|r rs IH]; simpl; [discriminate|].
+  destruct (r_mode r) eqn:Em.
+  - destruct (present (resolve (baseURI src) (r_target r))).
+    + destruct (valid_rels src present rs); simpl; [discriminate|]. intros H; inversion H; subst.
+      destruct (IH eq_refl) as (He & r' & Hr' & Hm & Hp). split; auto. exists r'. auto.
+    + intros H. destruct (IH H) as (He & r' & Hr' & Hm & Hp). split; auto. exists r'. auto.
+  - destruct (valid_rels src present rs); simpl; [discriminate|]. intros H; inversion H; subst.
+    destruct (IH eq_refl) as (He & r' & Hr' & Hm & Hp). split; auto. exists r'. auto.
+  - destruct (present (resolve (baseURI src) (r_target r))) eqn:Ep.
+    + destruct (valid_rels src present rs); simpl; [discriminate|]. intros H; inversion H; subst.
+      destruct (IH eq_refl) as (He & r' & Hr' & Hm & Hp). split; auto. exists r'. auto.
+    + intros H; inversion H; subst. split; auto. exists r. auto.
+Qed.
+
+Lemma valid_rels_targets src present rs l : valid_rels src present rs = Ok l ->
+  forall r, In r l -> l_ext r = false -> present (l_target r) = true.
+Proof.
+  revert l. induction rs as [|r0 rs IH]; simpl; intros l H r Hr He.
+  - inversion H; subst. destruct Hr.
+  - destruct (r_mode r0).
+    + destruct (present (resolve (baseURI src) (r_target r0))) eqn:Ep.
+      * destruct (valid_rels src present rs) as [l0|]; simpl in H; [|discriminate]. inversion H; subst.
+        destruct Hr as [<-|Hr]; [exact Ep|]. eapply IH; eauto.
+      * eapply IH; eauto.
+    + destruct (valid_rels src present rs) as [l0|]; simpl in H; [|discriminate]. inversion H; subst.
+      destruct Hr as [<-|Hr]; [discriminate|]. eapply IH; eauto.
+    + destruct (present (resolve (baseURI src) (r_target r0))) eqn:Ep; [|discriminate].
+      destruct (valid_rels src present rs) as [l0|]; simpl in H; [|discriminate]. inversion H; subst.
+      destruct Hr as [<-|Hr]; [exact Ep|]. eapply IH; eauto.
+Qed.
+
+Lemma lrels_set_in r d x : In x (lrels_set r d) -> x = r \/ In x d.
+Proof.
+  induction d as [|r' d IH]; simpl; [intros [H|[]]; auto|].
+  destruct (str_eqb (l_id r') (l_id r)); simpl; [intros [H|H]; auto|]. intros [H|H]; auto.
+  destruct (IH H); auto.
+Qed.
+
+Lemma lrels_dict_in l x : In x (lrels_dict l) -> In x l.
+Proof.
+  unfold lrels_dict. assert (H : forall acc, In x (fold_left (fun d r => lrels_set r d) l acc) -> In x acc \/ In x l).
+  { induction l as [|r l IH]; simpl; auto. intros acc Hx. destruct (IH _ Hx) as [H|H]; auto.
+    destruct (lrels_set_in _ _ _ H); auto. }
+  intros Hx. destruct (H [] Hx) as [[]|]; auto.
+Qed.
+
+Lemma load_rels_targets {blob} (E : env blob) p present n l : load_rels E p present n = Ok l ->
+  forall r, In r l -> l_ext r = false -> present (l_target r) = true.
+Proof.
+  unfold load_rels. destruct (valid_rels n present (rels_or_nil E p n)) as [l0|] eqn:Ev; simpl; [|discriminate].
+  intros H; inversion H; subst. intros r Hr. apply lrels_dict_in in Hr.
+  eapply valid_rels_targets; eauto.
+Qed.
+
+(** what a successful load returns: one part per loaded name, every internal
+    relationship pointing at a loaded part *)
+Lemma load_ok_shape {blob} (E : env blob) p k : load E p = Ok k ->
+  map p_name (k_parts k) = part_names E p /\
+  (forall r, In r (k_rels k) -> l_ext r = false -> In (l_target r) (part_names E p)) /\
+  (forall pt r, In pt (k_parts k) -> In r (p_rels pt) -> l_ext r = false ->
+                In (l_target r) (part_names E p)).
+Proof.
+  unfold load. destruct (lookup ct_uri p) as [cb|]; [|discriminate].
+  destruct (dec_ct E cb) as [c|]; [|discriminate].
+  destruct (negb _); [discriminate|].
+  destruct (mapM (load_part E p c) (part_names E p)) as [protos|] eqn:E1; simpl; [|discriminate].
+  match goal with |- context [mapM ?f protos] => destruct (mapM f protos) as [parts|] eqn:E2 end; simpl; [|discriminate].
+  destruct (load_rels E p _ root) as [krels|] eqn:E3; simpl; [|discriminate].
+  intros H; inversion H; subst; simpl. split; [|split].
+  - assert (Hn : map (fun pr : str * str * blob => fst (fst pr)) protos = part_names E p).
+    { apply (mapM_ok_map (load_part E p c)); auto. intros x [[n ct] b]. unfold load_part.
+      destruct (ct_lookup c x); simpl; [|discriminate]. destruct (lookup x p); [|discriminate].
+      destruct (is_xml_ct E a); [destruct (reser E b0)|]; intros Hx; inversion Hx; auto. }
+    rewrite <- Hn. clear - E2. revert parts E2. induction protos as [|[[n ct] b] protos IH]; simpl; intros parts H.
+    + inversion H; auto.
+    + destruct (load_rels E p _ n); simpl in H; [|discriminate].
+      match type of H with context [mapM ?f protos] => destruct (mapM f protos) as [ps|] eqn:Em end; simpl in H; [|discriminate].
+      inversion H; subst. simpl. f_equal. apply IH; auto.
+  - intros r Hr He. apply mem_str_In.
+    exact (load_rels_targets E p (fun n => mem_str n (part_names E p)) root krels E3 r Hr He).
+  - intros pt r Hpt Hr He.
+    destruct (mapM_ok_in _ _ _ E2 pt Hpt) as ([[n ct] b] & _ & Hf).
+    destruct (load_rels E p _ n) as [rs|] eqn:El; simpl in Hf; [|discriminate]. inversion Hf; subst. simpl in Hr.
+    apply mem_str_In.
+    exact (load_rels_targets E p (fun n0 => mem_str n0 (part_names E p)) n rs El r Hr He).
+Qed.
+
+Lemma find_part_in {blob} (k : pkg blob) n : In n (map p_name (k_parts k)) -> exists pt, find_part k n = Some pt.
+Proof.
+  unfold find_part. induction (k_parts k) as [|a l IH]; simpl; [tauto|].
+  destruct (str_eqb_spec (p_name a) n) as [->|Hn]; [eauto|]. intros [H|H]; [congruence|auto].
+Qed.
+
+Lemma ct_lookup_err c n e : ct_lookup c n = Err e -> e = KeyErr.
+Proof.
+  unfold ct_lookup. destruct (lookup _ _); [discriminate|]. destruct (lookup _ _); [discriminate|].
+  intros H; inversion H; auto.
+Qed.
+
+Lemma load_err {blob} (E : env blob) p e : load E p = Err e ->
+  (e = KeyErr /\ (cause_no_ct_item p \/ cause_untyped_part E p \/ cause_dangling_other_mode E p)) \/
+  (e = OtherErr /\ (cause_ct_undecodable E p \/ cause_rels_undecodable E p \/ cause_xml_unparseable E p)).
+Proof.
+  unfold load. destruct (lookup ct_uri p) as [cb|] eqn:Ecb.
+  2:{ intros H; inversion H; subst. left. split; [auto|]. left. exact Ecb. }
+  destruct (dec_ct E cb) as [c|] eqn:Ec.
+  2:{ intros H; inversion H; subst. right. split; [auto|]. left. exists cb. auto. }
+  assert (Hctin : forall n, ct_in E p n = ct_lookup c n) by (intros; unfold ct_in; rewrite Ecb, Ec; auto).
+  destruct (forallb _ (xml_rels_names E p)) eqn:Ef; cbn [negb].
+  2:{ intros H; inversion H; subst. right. split; [auto|]. right; left.
+      assert (Hex : existsb (fun n => negb match rels_for E p n with Some _ => true | None => false end) (xml_rels_names E p) = true).
+      { clear - Ef. induction (xml_rels_names E p) as [|a l IH]; simpl in *; [discriminate|].
+        destruct (rels_for E p a); simpl in *; auto. }
+      apply existsb_exists in Hex as (n & Hn & Hx). exists n. split; auto.
+      destruct (rels_for E p n); [discriminate|auto]. }
+  destruct (mapM (load_part E p c) (part_names E p)) as [protos|e1] eqn:E1; cbn [bind].
+  2:{ intros H; inversion H; subst. apply mapM_err in E1 as (n & Hn & Hf). unfold load_part in Hf.
+      destruct (ct_lookup c n) as [ct|e2] eqn:Ect; simpl in Hf.
+      - assert (Hhas : has n p = true).
+        { unfold part_names in Hn. apply filter_In in Hn as [_ Hn]. apply andb_true_iff in Hn; tauto. }
+        unfold has in Hhas. destruct (lookup n p) as [b|] eqn:Eb; [|discriminate].
+        destruct (is_xml_ct E ct) eqn:Ex; [|discriminate]. destruct (reser E b) eqn:Er; [discriminate|].
+        inversion Hf; subst. right. split; [auto|]. right; right. exists n, ct, b. rewrite Hctin. auto.
+      - inversion Hf; subst. apply ct_lookup_err in Ect as ->. left. split; [auto|]. right; left.
+        exists n. rewrite Hctin. auto. }
+  assert (Hnames : forall pr, In pr protos -> In (fst (fst pr)) (part_names E p)).
+  { intros pr Hpr. destruct (mapM_ok_in _ _ _ E1 pr Hpr) as (x & Hx & Hf). unfold load_part in Hf.
+    destruct (ct_lookup c x); simpl in Hf; [|discriminate]. destruct (lookup x p); [|discriminate].
+    destruct (is_xml_ct E a); [destruct (reser E b)|]; inversion Hf; subst; auto. }
+  match goal with |- context [mapM ?f protos] => destruct (mapM f protos) as [parts|e2] eqn:E2 end; cbn [bind].
+  2:{ intros H; inversion H; subst. apply mapM_err in E2 as ([[n ct] b] & Hpr & Hf).
+      unfold load_rels in Hf.
+      destruct (valid_rels n _ (rels_or_nil E p n)) as [l|e3] eqn:Ev; simpl in Hf; [discriminate|].
+      inversion Hf; subst. apply valid_rels_err in Ev as (-> & r & Hr & Hm & Hp).
+      left. split; [auto|]. right; right. exists n, r. repeat split; [auto|]. right. apply (Hnames _ Hpr). }
+  unfold load_rels.
+  destruct (valid_rels root _ (rels_or_nil E p root)) as [l|e3] eqn:Ev; simpl; [discriminate|].
+  intros H; inversion H; subst. apply valid_rels_err in Ev as (-> & r & Hr & Hm & Hp).
+  left. split; [auto|]. right; right. exists root, r. repeat split; [auto|]. left; auto.
+Qed.
+
+(** Presentation(): every way it can be refused, and no other error class *)
+Lemma load_presentation_err {blob} (E : env blob) p e : load_presentation E p = Err e ->
+  (e = KeyErr /\ (cause_no_ct_item p \/ cause_untyped_part E p \/ cause_dangling_other_mode E p \/
+                  exists k, load E p = Ok k /\ od_rels E k = [])) \/
+  (e = ValueErr /\ exists k, load E p = Ok k /\
+       ((exists r1 r2 l, od_rels E k = r1 :: r2 :: l) \/
+        (exists r, od_rels E k = [r] /\ l_ext r = true) \/
+        (exists r pt, od_rels E k = [r] /\ l_ext r = false /\ find_part k (l_target r) = Some pt /\
+                      mem_str (p_ct pt) (prescts E) = false))) \/
+  (e = OtherErr /\ (cause_ct_undecodable E p \/ cause_rels_undecodable E p \/ cause_xml_unparseable E p)).
+Proof.
+  unfold load_presentation. destruct (load E p) as [k|e0] eqn:El; cbn [bind].
+  2:{ intros H; inversion H; subst. apply load_err in El as [[-> Hc]|[-> Hc]]; [left|right; right]; split; auto.
+      tauto. }
+  fold (od_rels E k). destruct (od_rels E k) as [|r [|r2 l]] eqn:Eod.
+  - intros H; inversion H; subst. left. split; [auto|]. right; right; right. exists k. auto.
+  - destruct (l_ext r) eqn:Ee.
+    + intros H; inversion H; subst. right; left. split; [auto|]. exists k. split; [auto|]. right; left. exists r. auto.
+    + destruct (load_ok_shape E p k El) as (Hn & Hk & _).
+      assert (Hr : In r (k_rels k)).
+      { assert (Hin : In r (od_rels E k)) by (rewrite Eod; simpl; auto). unfold od_rels in Hin.
+        apply filter_In in Hin; tauto. }
+      destruct (find_part_in k (l_target r)) as (pt & Hpt); [rewrite Hn; apply Hk; auto|].
+      rewrite Hpt. destruct (mem_str (p_ct pt) (prescts E)) eqn:Em; [discriminate|].
+      intros H; inversion H; subst. right; left. split; [auto|]. exists k. split; auto.
+      right; right. exists r, pt. auto.
+  - intros H; inversion H; subst. right; left. split; [auto|]. exists k. split; [auto|]. left. eauto.
+Qed.
+
+Lemma load_presentation_ok {blob} (E : env blob) p k main : load_presentation E p = Ok (k, main) ->
+  load E p = Ok k /\ exists r, od_rels E k = [r] /\ l_ext r = false /\
+    find_part k (l_target r) = Some main /\ mem_str (p_ct main) (prescts E) = true.
+Proof.
+  unfold load_presentation. destruct (load E p) as [k0|] eqn:El; cbn [bind]; [|discriminate].
+  fold (od_rels E k0). destruct (od_rels E k0) as [|r [|r2 l]] eqn:Eod; try discriminate.
+  destruct (l_ext r) eqn:Ee; [discriminate|]. destruct (find_part k0 (l_target r)) as [pt|] eqn:Ef; [|discriminate].
+  destruct (mem_str (p_ct pt) (prescts E)) eqn:Em; [|discriminate].
+  intros H; inversion H; subst. split; [auto|]. exists r. auto.
+Qed.
+
+Lemma open_classify {blob} (E : env blob) (s : source blob) :
+  match open_presentation E s with
+  | ONotFound => s = SrcNotFound
+  | OBadZip => s = SrcNotZip
+  | OErr e => exists p, s = SrcMembers p /\ load_presentation E p = Err e /\
+                        (e = KeyErr \/ e = ValueErr \/ e = OtherErr)
+  | OOk km => exists p, s = SrcMembers p /\ load_presentation E p = Ok km
+  end.
+Proof.
+  destruct s as [| |p]; simpl; auto.
+  destruct (load_presentation E p) as [km|e] eqn:El; [eauto|].
+  exists p. split; auto. split; auto.
+  apply load_presentation_err in El as [[-> _]|[[-> _]|[-> _]]]; auto.
+Qed.
+
 (** ---- the extracted instance and two concrete packages (non-vacuity, refutation) ---- *)
 From V.model Require Import OpcRun.
 From V.gen Require Import GenC01.
